@@ -680,3 +680,82 @@ def r10_region_gets_callers_images(ck, P):
                 ck.ok(R, where)
     if n == 0:
         ck.incomplete(R, 'no exported caller of the composite-region computation found')
+
+
+def r13_empty_image_never_repeated(ck, P, rid='C04-R13'):
+    """T-PATH (partial evaluation): the repeat modes NORMAL / PAD / REFLECT are defined in terms of the image size (modulo, clamp to
+    size - 1).  With the assumption 'width == 0 (or height == 0) and repeat != NONE' the gate every source and mask passes must not reach
+    its success return, and the glyph entry point that does not go through the gate must not reach a compositing call."""
+    R = ck.rule(rid, 'under the assumption that a bits image has width 0 (then: height 0) and a repeat mode other than NONE, the function that admits sources and masks for sampling (it sets FAST_PATH_SAMPLES_COVER_CLIP_*) has no path to a non-zero return, and pixman_composite_glyphs_no_mask has no path to a compositing call: the repeat arithmetic divides by the size (MOD), subtracts it until the coordinate fits, or clamps to size - 1 = -1', floor=4)
+    from .. import consts
+    C = consts.fast_path_flags()
+    cover = C['FAST_PATH_SAMPLES_COVER_CLIP_NEAREST']
+    gate = None
+    for f in P.functions():
+        if f.exported:
+            continue
+        for x in f.insts():
+            if x.op == 'or' and any(a[0] == 'c' and int(a[1]) == cover for a in x.a):
+                if any(pt.endswith('pixman_box32*') or 'pixman_box32' in pt for pn, pt in f.params):
+                    gate = f
+    if gate is None:
+        raise AnalysisBroken('%s: the function that sets FAST_PATH_SAMPLES_COVER_CLIP_NEAREST for a source was not found' % rid)
+    n = 0
+    BITS = P.enum('image_type_t')['BITS']
+    def assume(f, root, dim):
+        def known(x):
+            if x.op == 'load' and f.root(f.path(x.a[0])) == root:
+                lf = f.last_field(f.path(x.a[0]))
+                if lf == 'bits_image.' + dim:
+                    return 0
+                if lf == 'image_common.repeat':
+                    return 1
+                if lf in ('image_common.type', 'bits_image.type') or (lf is None and not f.path(x.a[0])[1] and x.ty == 'i32'):
+                    return BITS                      # the type tag is the first member of every alternative of the union
+            if x.op == 'icmp' and x.d['p'] in ('eq', 'ne') and any(a[0] == 'n' for a in x.a) and any(a[0] == 'a' and ('arg', a[1]) == root for a in x.a):
+                return int(x.d['p'] == 'ne')          # the image is there
+            return None
+        return known
+    # the gate: blocks from which a non-zero value flows into the return
+    f = gate; ck.saw(f)
+    img = [i for i, (pn, pt) in enumerate(f.params) if 'pixman_image' in pt]
+    rets = [x for x in f.insts() if x.op == 'ret' and x.a]
+    good = set()
+    for r in rets:
+        v = f.v(r.a[0])
+        if v is not None and v.op == 'phi':
+            for a, bb in zip(v.a, v.d['bb']):
+                if not (a[0] == 'c' and int(a[1]) == 0):
+                    good.add(('edge', bb, v.bb.id))
+        elif r.a[0][0] == 'c' and int(r.a[0][1]) != 0:
+            good.add(('block', r.bb.id))
+    if not good or not img:
+        raise AnalysisBroken('%s: success returns of %s not recognised' % (rid, f.name))
+    for dim in ('width', 'height'):
+        n += 1
+        taken = set()
+        def on_edge(b, s_, pv):
+            taken.add((b, s_))
+        hit = common.reach_under(f, assume(f, ('arg', img[0]), dim), {g[1] for g in good if g[0] == 'block'}, on_edge=on_edge)
+        ok = not hit and not any(g[0] == 'edge' and (g[1], g[2]) in taken for g in good)
+        where = '%s: %s == 0 with a repeat' % (f.name, dim)
+        if ok:
+            ck.ok(R, where, 'no path to a non-zero return')
+        else:
+            ck.violation(R, f.name, 'empty image with a repeat (%s == 0)' % dim, '%s can return success for a bits image whose %s is 0 and whose repeat mode is not NONE: the fetchers then compute coordinates modulo 0 (SIGFPE), subtract 0 until the coordinate fits (endless loop) or clamp to pixel -1 / 0 of an image that has no pixels (read outside its storage)' % (f.name, dim), '%s:%d' % (f.unit.name, f.line))
+    g = P.fn('pixman_composite_glyphs_no_mask', required=False)
+    if g is not None:
+        ck.saw(g)
+        src = [i for i, (pn, pt) in enumerate(g.params) if 'pixman_image' in pt]
+        calls = {c.bb.id for c in g.calls() if c.callee is None and 'callee' in c.d}
+        if src and calls:
+            for dim in ('width', 'height'):
+                n += 1
+                hit = common.reach_under(g, assume(g, ('arg', src[0]), dim), calls)
+                where = '%s: source %s == 0 with a repeat' % (g.name, dim)
+                if not hit:
+                    ck.ok(R, where, 'no path to a compositing call')
+                else:
+                    ck.violation(R, g.name, 'empty source with a repeat (%s == 0)' % dim, '%s reaches a compositing call with a source whose %s is 0 and whose repeat mode is not NONE; this entry point does not pass through %s, so nothing else stops the repeat arithmetic from dividing by zero or padding with a pixel that does not exist' % (g.name, dim, gate.name), '%s:%d' % (g.unit.name, g.line))
+    if n < 2:
+        raise AnalysisBroken('%s: gate not analysed' % rid)
